@@ -27,13 +27,13 @@ func profileFor(r *prng.R, k int, thorough bool) profile {
 	case 0: // the synchronous network only
 		return profile{name: "fair", steps: 0, fairBlocks: 12}
 	case 1: // mild: reordering, few timeouts
-		return profile{name: "reorder", wDeliver: 80, wDrop: 1, wDup: 4, wTimer: 3, wSilence: 1, wTx: 4, wGive: 6, wRelay: 2, steps: 600, fairBlocks: 3}
+		return profile{name: "reorder", wDeliver: 80, wDrop: 1, wDup: 4, wTimer: 3, wSilence: 1, wTx: 4, wGive: 6, wRelay: 2, steps: 1200, fairBlocks: 3}
 	case 2: // lossy
-		return profile{name: "lossy", wDeliver: 60, wDrop: 12, wDup: 6, wTimer: 8, wSilence: 2, wTx: 4, wGive: 5, wRelay: 3, steps: 600, fairBlocks: 3}
+		return profile{name: "lossy", wDeliver: 60, wDrop: 12, wDup: 6, wTimer: 8, wSilence: 2, wTx: 4, wGive: 5, wRelay: 3, steps: 1200, fairBlocks: 3}
 	case 3: // timer storm: views diverge
-		return profile{name: "timers", wDeliver: 50, wDrop: 4, wDup: 4, wTimer: 25, wSilence: 3, wTx: 3, wGive: 5, wRelay: 3, steps: 600, fairBlocks: 3}
+		return profile{name: "timers", wDeliver: 50, wDrop: 4, wDup: 4, wTimer: 25, wSilence: 3, wTx: 3, wGive: 5, wRelay: 3, steps: 1200, fairBlocks: 3}
 	default: // silence-heavy
-		return profile{name: "silence", wDeliver: 60, wDrop: 3, wDup: 3, wTimer: 12, wSilence: 8, wTx: 4, wGive: 5, wRelay: 4, steps: 600, fairBlocks: 3}
+		return profile{name: "silence", wDeliver: 60, wDrop: 3, wDup: 3, wTimer: 12, wSilence: 8, wTx: 4, wGive: 5, wRelay: 4, steps: 1200, fairBlocks: 3}
 	}
 }
 
@@ -47,7 +47,7 @@ func main() {
 	}
 	defer os.RemoveAll(dir)
 	thorough := f.Tier == "thorough"
-	n := f.N(40, 600)
+	n := f.N(40, 1000)
 	verbose := os.Getenv("DBFT_VERBOSE") != ""
 	t0 := time.Now()
 	for k := 0; k < n; k++ {
